@@ -187,7 +187,9 @@ def match_known(known, f):
     for e in known:
         if e['property'] != f.prop or e['rule'] != f.rule:
             continue
-        if e['function'] != f.function:
+        # an entry names a function, or the public top-level definition that encloses a privately named nested function
+        # (`module:factory` matches findings in `module:factory.func`, `module:factory.func.helper`, ...)
+        if e['function'] != f.function and not f.function.startswith(e['function'] + '.'):
             continue
         if norm(e['construct']) != f.construct:
             continue
